@@ -245,7 +245,20 @@ def run(chk):
     per = 500
     batches = pool_map(_rand_records, [(chk.seed * 7919 + i, per) for i in range(nrec // per)])
     recs = [r for b in batches for r in b]
-    verdicts = judge(chk, recs)
+    # binding self test: corrupted copies of accepted records must be rejected by TLC
+    probes = []
+    for r in recs:
+        if r['out']['ok'] and r['dt']['k'] == 'int' and r['c']['j'] == 'int' and not probes:
+            x = {k: json.loads(json.dumps(r[k])) for k in JUDGE_FIELDS}
+            x['out']['v']['n'] += 1                      # another number than the one offered
+            y = {k: json.loads(json.dumps(r[k])) for k in JUDGE_FIELDS}
+            y['out'] = {'ok': False, 'e': 'OTHER:TypeError'}   # an exception that is not a bad-value error
+            probes += [x, y]
+    verdicts = judge(chk, recs + probes)
+    if probes:
+        chk.notes['binding_selftest'] = 'corrupted case records -> ' + str(verdicts[len(recs):])
+        if any(v is None for v in verdicts[len(recs):]):
+            raise MachineryError('Trace_Datatypes accepted a corrupted record')
     for r, v in zip(recs, verdicts):
         chk.impl_traces += 1
         chk.case(hash(rkey(r)), True)
